@@ -276,6 +276,7 @@ func checkC08(c CaseC08, info *Info) *Failure {
 			mxj.Map(copyMap(c.Map)).ValuesForPath(pathString(c.Steps), specs(c.Conds, sep)...)
 		}
 		mxj.SetFieldSeparator(sep)
+		bystanders()
 		sp := specs(c.Conds, sep)
 		var all, filtered []interface{}
 		var what string
@@ -357,6 +358,7 @@ func checkC08(c CaseC08, info *Info) *Failure {
 		want := map[string][2]string{"|": {"1", "4"}, ":": {"2", "5"}}
 		for _, sp := range order {
 			mxj.SetFieldSeparator(sp)
+			bystanders()
 			g1, g2 := ns("a|x:y"), ns("b:p|q")
 			if g1 != want[sp][0] || g2 != want[sp][1] {
 				return failf("separator-leak", "under separator %q (sequence %q): ValuesForKey(l, \"a|x:y\") selects members %s want %s; (l, \"b:p|q\") selects %s want %s", sp, order, g1, want[sp][0], g2, want[sp][1])
